@@ -13,6 +13,7 @@ import Mathlib.Tactic.Ring
 import Mathlib.Tactic.Linarith
 import Mathlib.Tactic.Positivity
 import Mathlib.Tactic.NormNum
+import Mathlib.Tactic.LinearCombination
 
 namespace DistanceLemmas
 open Distance
@@ -193,6 +194,12 @@ theorem regionSpan_eq {d : List ℝ} {s : ℕ} (h : d ≠ []) (hs : s < d.length
   rw [List.getLastD_eq_getLast?, List.getLast?_eq_some_getLast h]
   simp only [Option.getD_some, List.getD_eq_getElem _ _ hs]
 
+theorem regionSpan_eq_getD {d : List ℝ} {s : ℕ} (h : d ≠ []) :
+    regionSpan (d, s) = d.getLast h - d.getD s 0 := by
+  unfold regionSpan
+  rw [List.getLastD_eq_getLast?, List.getLast?_eq_some_getLast h]
+  simp only [Option.getD_some]
+
 theorem chainPD_nil (off : ℝ) : chainPD off ([] : List (List ℝ × ℕ)) = [] := by rw [chainPD]
 
 theorem chainPD_cons (off : ℝ) (d : List ℝ) (s : ℕ) (rest : List (List ℝ × ℕ)) :
@@ -244,6 +251,35 @@ theorem chainPD_last : ∀ (off : ℝ) (regs : List (List ℝ × ℕ)), regs ≠
         rw [h] at this; simp at this
     · rw [hv']; simp [add_assoc]
 
+/-- continuity across a join whose upper region starts at its first point -/
+theorem chainPD_join_continuous (off : ℝ) (regs : List (List ℝ × ℕ)) (k : ℕ) (hk : k + 1 < regs.length)
+    (hne : regs[k].1 ≠ []) (hne' : regs[k + 1].1 ≠ []) (hs : regs[k + 1].2 = 0) :
+    ∃ u v a, (chainPD off regs)[k]? = some u ∧ (chainPD off regs)[k + 1]? = some v ∧
+      u.getLast? = some a ∧ v.head? = some a := by
+  refine ⟨_, _, chainOffset off regs (k + 1), chainPD_getElem? off regs k (by omega),
+    chainPD_getElem? off regs (k + 1) hk, ?_, ?_⟩
+  · rw [regionVals_getLast? hne, chainOffset_step off regs k (by omega)]
+  · rw [hs]
+    obtain ⟨d0, dt, hd⟩ := List.exists_cons_of_ne_nil hne'
+    rw [hd, regionVals_zero_start]
+    rfl
+
+/-- end value minus start value of the chain: independent of the offset and of the first region's startInd -/
+theorem chainPD_end_minus_start (off : ℝ) (d0 : List ℝ) (s0 : ℕ) (rest : List (List ℝ × ℕ)) (h0 : d0 ≠ [])
+    (hrest : ∀ p ∈ rest, p.1 ≠ []) :
+    ∃ u v a b, (chainPD off ((d0, s0) :: rest)).head? = some u ∧ (chainPD off ((d0, s0) :: rest)).getLast? = some v ∧
+      u.head? = some a ∧ v.getLast? = some b ∧ b - a = regionSpan (d0, 0) + (rest.map regionSpan).sum := by
+  obtain ⟨v, hv, hv'⟩ := chainPD_last off ((d0, s0) :: rest) (by simp) (by
+    intro p hp
+    rcases List.mem_cons.1 hp with rfl | hp
+    · exact h0
+    · exact hrest p hp)
+  obtain ⟨e, t, rfl⟩ := List.exists_cons_of_ne_nil h0
+  refine ⟨regionVals off (e :: t) s0, v, off + (e - (e :: t).getD s0 0), _, by simp [chainPD_cons], hv,
+    by simp [regionVals], hv', ?_⟩
+  simp only [List.map_cons, List.sum_cons, regionSpan, List.getD_cons_zero]
+  ring
+
 /-- the chain written as one sequence, the duplicated join points dropped -/
 def joinChain : List (List ℝ) → List ℝ
   | [] => []
@@ -274,6 +310,21 @@ theorem joinChain_pairwise (off : ℝ) (d : List ℝ) (s : ℕ) (rest : List (Li
   apply pairwise_append_of_getLast (regionVals_ne_nil hne) (regionVals_pairwise hd)
   rw [regionVals_getLast hne]
   exact chain_tails_pairwise _ rest h
+
+/-- the interior-face formula applied to two contours glued end to end, at the face where they are glued -/
+theorem hyYlowInner_append (A B : List ℝ) (m : ℕ) (hA : A.length = 2 * m + 3) (hB : 1 ≤ B.length) :
+    (hyYlowInner (A ++ B))[m]? = some (B[0] - A[2 * m + 1]) := by
+  have hlen : (A ++ B).length = 2 * m + 3 + B.length := by rw [List.length_append, hA]
+  have h1 : 2 * m + 3 < (A ++ B).length := by omega
+  have h2 : m < (hyYlowInner (A ++ B)).length := by rw [hyYlowInner_length]; omega
+  rw [List.getElem?_eq_getElem h2, hyYlowInner_getElem (A ++ B) m h1 h2]
+  rw [List.getElem_append_right (by omega), List.getElem_append_left (by omega)]
+  simp only [hA, Nat.sub_self]
+
+theorem joinChain_two (off : ℝ) (d0 d1 : List ℝ) (s0 s1 : ℕ) :
+    joinChain (chainPD off [(d0, s0), (d1, s1)]) =
+      regionVals off d0 s0 ++ (regionVals (off + regionSpan (d0, s0)) d1 s1).tail := by
+  simp [chainPD_cons, chainPD_nil, joinChain]
 
 /-! ### the variant that subtracts `d[start]` only for the first region (the defect) -/
 
@@ -389,9 +440,131 @@ theorem cumtrapzAux_pairwise_lt : ∀ (acc : ℝ) (x y : List ℝ), x.Pairwise (
     · exact hstep
     · exact lt_trans hstep ((List.pairwise_cons.1 ih).1 b hb')
 
+theorem cumtrapz_ne_nil {x : List ℝ} (y : List ℝ) (h : x ≠ []) : cumtrapz x y ≠ [] := by
+  obtain ⟨x0, xs, rfl⟩ := List.exists_cons_of_ne_nil h
+  simp [cumtrapz_cons]
+
+theorem cumtrapz_getD_zero (x y : List ℝ) : (cumtrapz x y).getD 0 0 = 0 := by
+  cases x with
+  | nil => simp [cumtrapz_nil]
+  | cons x0 xs => simp [cumtrapz_cons]
+
+theorem cumtrapz_head? {x : List ℝ} (y : List ℝ) (h : x ≠ []) : (cumtrapz x y).head? = some 0 := by
+  obtain ⟨x0, xs, rfl⟩ := List.exists_cons_of_ne_nil h
+  simp [cumtrapz_cons]
+
+theorem cumtrapz_getElem_succ (x y : List ℝ) (hxy : x.length = y.length) (i : ℕ) (hi : i + 1 < x.length)
+    (h1 : i + 1 < (cumtrapz x y).length) :
+    (cumtrapz x y)[i + 1] = (cumtrapz x y)[i] + (x[i + 1] - x[i]) * (y[i] + y[i + 1]) / 2 := by
+  cases x with
+  | nil => simp at hi
+  | cons x0 xs =>
+    simp only [cumtrapz_cons]
+    exact cumtrapzAux_step 0 (x0 :: xs) y i hi (by omega) _
+
+/-- strictly increasing abscissae, non-positive integrand: the cumulative values do not increase -/
+theorem cumtrapzAux_pairwise_ge : ∀ (acc : ℝ) (x y : List ℝ), x.Pairwise (· < ·) → (∀ v ∈ y, v ≤ 0) →
+    (acc :: cumtrapzAux acc x y).Pairwise (· ≥ ·)
+  | acc, [], y, _, _ => by simp [cumtrapzAux_nil_left]
+  | acc, [x0], y, _, _ => by simp [cumtrapzAux_one_left]
+  | acc, x0 :: x1 :: xs, [], _, _ => by simp [cumtrapzAux_nil_right]
+  | acc, x0 :: x1 :: xs, [y0], _, _ => by simp [cumtrapzAux_one_right]
+  | acc, x0 :: x1 :: xs, y0 :: y1 :: ys, hx, hy => by
+    have ih := cumtrapzAux_pairwise_ge (acc + (x1 - x0) * (y0 + y1) / 2) (x1 :: xs) (y1 :: ys)
+      (List.pairwise_cons.1 hx).2 (fun v hv => hy v (List.mem_cons_of_mem _ hv))
+    rw [cumtrapzAux_cons2]
+    have h01 : x0 < x1 := (List.pairwise_cons.1 hx).1 x1 (by simp)
+    have hy0 : y0 ≤ 0 := hy y0 (by simp)
+    have hy1 : y1 ≤ 0 := hy y1 (by simp)
+    have hstep : acc ≥ acc + (x1 - x0) * (y0 + y1) / 2 := by
+      have : 0 ≤ (x1 - x0) * (-(y0 + y1)) := mul_nonneg (by linarith) (by linarith)
+      linarith
+    refine List.pairwise_cons.2 ⟨fun b hb => ?_, ih⟩
+    rcases List.mem_cons.1 hb with rfl | hb'
+    · exact hstep
+    · exact ge_trans hstep ((List.pairwise_cons.1 ih).1 b hb')
+
+/-- strictly increasing abscissae, negative integrand: the cumulative values decrease strictly -/
+theorem cumtrapzAux_pairwise_gt : ∀ (acc : ℝ) (x y : List ℝ), x.Pairwise (· < ·) → (∀ v ∈ y, v < 0) →
+    (acc :: cumtrapzAux acc x y).Pairwise (· > ·)
+  | acc, [], y, _, _ => by simp [cumtrapzAux_nil_left]
+  | acc, [x0], y, _, _ => by simp [cumtrapzAux_one_left]
+  | acc, x0 :: x1 :: xs, [], _, _ => by simp [cumtrapzAux_nil_right]
+  | acc, x0 :: x1 :: xs, [y0], _, _ => by simp [cumtrapzAux_one_right]
+  | acc, x0 :: x1 :: xs, y0 :: y1 :: ys, hx, hy => by
+    have ih := cumtrapzAux_pairwise_gt (acc + (x1 - x0) * (y0 + y1) / 2) (x1 :: xs) (y1 :: ys)
+      (List.pairwise_cons.1 hx).2 (fun v hv => hy v (List.mem_cons_of_mem _ hv))
+    rw [cumtrapzAux_cons2]
+    have h01 : x0 < x1 := (List.pairwise_cons.1 hx).1 x1 (by simp)
+    have hy0 : y0 < 0 := hy y0 (by simp)
+    have hy1 : y1 < 0 := hy y1 (by simp)
+    have hstep : acc > acc + (x1 - x0) * (y0 + y1) / 2 := by
+      have : 0 < (x1 - x0) * (-(y0 + y1)) := mul_pos (by linarith) (by linarith)
+      linarith
+    refine List.pairwise_cons.2 ⟨fun b hb => ?_, ih⟩
+    rcases List.mem_cons.1 hb with rfl | hb'
+    · exact hstep
+    · exact gt_trans hstep ((List.pairwise_cons.1 ih).1 b hb')
+
+/-- all four monotonicity statements for `cumtrapz` itself -/
+theorem cumtrapz_pairwise (x y : List ℝ) (hx : x.Pairwise (· < ·)) :
+    ((∀ v ∈ y, 0 ≤ v) → (cumtrapz x y).Pairwise (· ≤ ·)) ∧ ((∀ v ∈ y, 0 < v) → (cumtrapz x y).Pairwise (· < ·)) ∧
+    ((∀ v ∈ y, v ≤ 0) → (cumtrapz x y).Pairwise (· ≥ ·)) ∧ ((∀ v ∈ y, v < 0) → (cumtrapz x y).Pairwise (· > ·)) := by
+  cases x with
+  | nil => simp [cumtrapz_nil]
+  | cons x0 xs =>
+    rw [cumtrapz_cons]
+    exact ⟨cumtrapzAux_pairwise_le 0 _ y hx, cumtrapzAux_pairwise_lt 0 _ y hx, cumtrapzAux_pairwise_ge 0 _ y hx,
+      cumtrapzAux_pairwise_gt 0 _ y hx⟩
+
+/-- exactness for a constant integrand -/
+theorem cumtrapz_replicate (x : List ℝ) (c : ℝ) : ∀ (i : ℕ) (hi : i < x.length)
+    (h1 : i < (cumtrapz x (List.replicate x.length c)).length),
+    (cumtrapz x (List.replicate x.length c))[i] = c * (x[i] - x[0])
+  | 0, hi, h1 => by
+    obtain ⟨x0, xs, rfl⟩ := List.exists_cons_of_ne_nil (List.ne_nil_of_length_pos hi)
+    simp [cumtrapz_cons]
+  | i + 1, hi, h1 => by
+    have ih := cumtrapz_replicate x c i (by omega) (by omega)
+    rw [cumtrapz_getElem_succ x _ (by simp) i hi h1, ih]
+    simp only [List.getElem_replicate]
+    ring
+
+theorem regionSpan_cumtrapz_zero (x y : List ℝ) : regionSpan (cumtrapz x y, 0) = (cumtrapz x y).getLastD 0 := by
+  unfold regionSpan
+  simp only [cumtrapz_getD_zero, sub_zero]
+
+/-- the regions of a zShift chain: per-region cumulative trapezoids, the first one zeroed at its startInd `s0`, every
+    later one starting at its first point -/
+noncomputable def zregs (x0 y0 : List ℝ) (s0 : ℕ) (rest : List (List ℝ × List ℝ)) : List (List ℝ × ℕ) :=
+  (cumtrapz x0 y0, s0) :: rest.map fun p => (cumtrapz p.1 p.2, 0)
+
 /-! ## chords of a circular arc -/
 
 /-- `FineContour.calcDistance` on a circular arc: N equal chords of an arc of radius r and angle θ -/
 noncomputable def chordSum (r θ : ℝ) (N : ℕ) : ℝ := N * (2 * r * Real.sin (θ / (2 * N)))
+
+/-- the straight-line distance between two points of a circle of radius r whose angles differ by φ ∈ [0, 2π] is
+    2·r·sin(φ/2) -/
+theorem chord_length (r a φ : ℝ) (hr : 0 ≤ r) (h0 : 0 ≤ φ) (h1 : φ ≤ 2 * Real.pi) :
+    Real.sqrt ((r * Real.cos (a + φ) - r * Real.cos a) ^ 2 + (r * Real.sin (a + φ) - r * Real.sin a) ^ 2)
+      = 2 * r * Real.sin (φ / 2) := by
+  have e1 := Real.sin_sq_add_cos_sq (a + φ)
+  have e0 := Real.sin_sq_add_cos_sq a
+  have eφ : Real.cos φ = Real.cos (a + φ) * Real.cos a + Real.sin (a + φ) * Real.sin a := by
+    have := Real.cos_sub (a + φ) a
+    rwa [add_sub_cancel_left] at this
+  have ec : Real.cos φ = 1 - 2 * Real.sin (φ / 2) ^ 2 := by
+    have h := Real.cos_two_mul (φ / 2)
+    have h' := Real.sin_sq_add_cos_sq (φ / 2)
+    rw [mul_div_cancel₀ φ (two_ne_zero)] at h
+    linear_combination h + 2 * h'
+  have key : (r * Real.cos (a + φ) - r * Real.cos a) ^ 2 + (r * Real.sin (a + φ) - r * Real.sin a) ^ 2
+      = (2 * r * Real.sin (φ / 2)) ^ 2 := by
+    linear_combination r ^ 2 * e1 + r ^ 2 * e0 + 2 * r ^ 2 * eφ - 2 * r ^ 2 * ec
+  rw [key]
+  apply Real.sqrt_sq
+  have : 0 ≤ Real.sin (φ / 2) := Real.sin_nonneg_of_nonneg_of_le_pi (by linarith) (by linarith)
+  positivity
 
 end DistanceLemmas
